@@ -20,6 +20,8 @@ uint32_t vp_nondet_u32(void){return (uint32_t)nextv();}
 uint64_t vp_nondet_u64(void){return (uint64_t)nextv();}
 float vp_nondet_f32(void){uint32_t b=(uint32_t)nextv(); float f; memcpy(&f,&b,4); return f;}
 double vp_nondet_f64(void){uint64_t b=nextv(); double f; memcpy(&f,&b,8); return f;}
+unsigned vp_fix(unsigned x){ return x; }
+void vp_sched(unsigned){}
 unsigned vp_pick(unsigned n){ uint32_t v=(uint32_t)nextv(); if(v>=n){ printf("VP_ASSUME_FAIL\n"); fflush(stdout); _Exit(0);} return v; }
 void vp_assume(bool c){ if(!c){ printf("VP_ASSUME_FAIL\n"); fflush(stdout); _Exit(0);} }
 void vp_assert(bool c,const char*l){ load(); if(g_trace) printf("A %s %d\n",l,(int)c); if(!c){ printf("VP_ASSERT_FAIL %s\n",l); fflush(stdout); _Exit(3);} }
